@@ -967,10 +967,21 @@ def gen_partition(rng, I, max_docs=6):
         w = rng.randrange(len(wdocs))
         wimports[w].append(("W", w))
         L.shape["self_wimp"] = True
-    # safe order: schema documents first (see KEY_FOREIGN)
+    # any order: a schema document imported after a WSDL that has types used to land in that
+    # WSDL's Types object (KEY_FOREIGN, repaired); half of the layouts keep schema documents first
+    x_first = rng.random() < 0.5
     for w in wimports:
         rng.shuffle(wimports[w])
-        wimports[w].sort(key=lambda e: e[0] != "X")
+        if x_first:
+            wimports[w].sort(key=lambda e: e[0] != "X")
+        else:
+            seen_w = False
+            for kind, t in wimports[w]:
+                if kind == "W" and t != w:
+                    seen_w = True
+                elif kind == "X" and seen_w:
+                    L.quirks.add(KEY_FOREIGN)       # names the finding class should it come back
+                    L.shape["xsd_after_wsdl_import"] = True
     # --- extra references between schema documents: cycles and self-references
     for k, (url, s, blks) in enumerate(xdocs):
         if s.tns is None:
@@ -1051,10 +1062,12 @@ class PDoc(object):
         self.imports = []
         self.types = []
         self.schema = None
+        self.names = []          # ('m'|'p'|'b', name, targetNamespace) of a WSDL's components
 
 
 def _schema_of(node):
-    refs = []
+    """(targetNamespace, references in order, top-level declarations ('e'|'t', name))"""
+    refs, decls = [], []
     for c in node.elements():
         if c.ns != XSD:
             continue
@@ -1062,7 +1075,11 @@ def _schema_of(node):
             refs.append(("import", c.attrs.get((None, "namespace")), c.attrs.get((None, "schemaLocation"))))
         elif c.name == "include":
             refs.append(("include", c.attrs.get((None, "schemaLocation"))))
-    return (node.attrs.get((None, "targetNamespace")), refs)
+        elif c.name == "element":
+            decls.append(("e", c.attrs.get((None, "name"))))
+        elif c.name in ("complexType", "simpleType"):
+            decls.append(("t", c.attrs.get((None, "name"))))
+    return (node.attrs.get((None, "targetNamespace")), refs, decls)
 
 
 def parse_doc(data):
@@ -1081,6 +1098,8 @@ def parse_doc(data):
                 d.imports.append(c.attrs.get((None, "location")))
             elif c.name == "types":
                 d.types.append([_schema_of(s) for s in c.elements() if s.ns == XSD and s.name == "schema"])
+            elif c.name in ("message", "portType", "binding"):
+                d.names.append((c.name[0], c.attrs.get((None, "name")), root.attrs.get((None, "targetNamespace"))))
         return d
     if root.ns == XSD and root.name == "schema":
         d = PDoc("X")
@@ -1102,7 +1121,7 @@ def doc_refs(url, pd):
         for l in pd.imports:
             out.append(("wimp", py_join(url, l)))
         for t in pd.types:
-            for tns, refs in t:
+            for tns, refs, _ in t:
                 for r in refs:
                     if r[-1] is not None:
                         out.append((r[0], py_join(url, r[-1])))
@@ -1135,7 +1154,7 @@ def shadowed(pdocs):
             continue
         members = []           # (tns, refs, own url or None, base)
         for t in pd.types:
-            for tns, refs in t:
+            for tns, refs, _ in t:
                 members.append((tns, refs, None, url))
         for l in pd.imports:
             v = py_join(url, l)
@@ -1193,7 +1212,8 @@ def quirk_layouts(rng):
         L.root, L.single, L.quirks = r.url, single(), {KEY_RELBASE}
         L.desc = "quirk relative-base (%s)" % ref
         out.append(L)
-    # 2. root without types imports a WSDL with types, then a schema document
+    # 2. root without types imports a WSDL with types, then a schema document (repaired in
+    #    /repo: must load like the single document; a regression is reported under KEY_FOREIGN)
     L = Layout("quirk")
     r = WDoc(HOST + "/a/r.wsdl")
     r.imports = ["a.wsdl", "x.xsd"]
@@ -1249,7 +1269,7 @@ def quirk_layouts(rng):
 
 class Obs(object):
     __slots__ = ("fresh", "fault", "klass", "events", "dcache", "ocache", "complete", "fired", "fp",
-                 "exc", "fpfull")
+                 "exc", "fpfull", "tables")
 
 
 def _canon_bytes(data):
@@ -1371,8 +1391,12 @@ def run_scenario(L, policy, steps, cache_kind, tmp):
             o.klass = 3
         o.events = r.events
         o.fired = r.fired
-        o.fp, o.fpfull = 0, None
+        o.fp, o.fpfull, o.tables = 0, None, None
         if r.client is not None:
+            try:
+                o.tables = client_tables(r.client)
+            except Exception:        # noqa
+                o.tables = ([("?", "tables raise", None)], [])
             try:
                 with Watchdog(30):
                     o.fpfull = fingerprint(r.client)
@@ -1412,20 +1436,31 @@ def c_ref(r, nsid):
     return "(XInc %s)" % cstr(r[1] or "")
 
 
-def c_schema(s, nsid):
-    tns, refs = s
-    return "(mkX %s %s)" % (copt(None if tns is None else cN(nsid(tns) + 1), "N"),
-                            clist([c_ref(r, nsid) for r in refs], "xref"))
+def c_schema(s, nsid, did):
+    tns, refs, decls = s
+    return "(mkX %s %s %s)" % (copt(None if tns is None else cN(nsid(tns) + 1), "N"),
+                               clist([c_ref(r, nsid) for r in refs], "xref"),
+                               clist([cN(did(d)) for d in decls], "N"))
 
 
-def c_doc(pd, nsid):
+def c_doc(pd, nsid, did):
     if pd.kind == "W":
-        return "(DWsdl %s %s)" % (clist([cstr(l or "") for l in pd.imports], "str"),
-                                  clist([clist([c_schema(s, nsid) for s in t], "xschema") for t in pd.types],
-                                        "list xschema"))
+        return "(DWsdl %s %s %s)" % (
+            clist([cstr(l or "") for l in pd.imports], "str"),
+            clist([clist([c_schema(s, nsid, did) for s in t], "xschema") for t in pd.types], "list xschema"),
+            clist([cN(did(n)) for n in pd.names], "N"))
     if pd.kind == "X":
-        return "(DXsd %s)" % c_schema(pd.schema, nsid)
+        return "(DXsd %s)" % c_schema(pd.schema, nsid, did)
     return "DBad"
+
+
+def client_tables(client):
+    """The keys of the tables a constructed client resolves names in."""
+    w = client.wsdl
+    names = ([("m", str(k[0]), k[1]) for k in w.messages] + [("p", str(k[0]), k[1]) for k in w.port_types]
+             + [("b", str(k[0]), k[1]) for k in w.bindings])
+    decls = ([(k[1], ("e", str(k[0]))) for k in w.schema.elements] + [(k[1], ("t", str(k[0]))) for k in w.schema.types])
+    return names, decls
 
 
 def c_fault(f):
@@ -1443,8 +1478,14 @@ def c_case(L, pdocs, policy, obs, single_fp):
     for o in obs:
         for _, u in o.events:
             urls(u)
-    docs = clist(["(%s, (%s, %s))" % (cnat(urls(u)), cbool(u in L.in_store), c_doc(pdocs[u], nsid))
+    did = Interner()
+    docs = clist(["(%s, (%s, %s))" % (cnat(urls(u)), cbool(u in L.in_store), c_doc(pdocs[u], nsid, did))
                   for u in L.docs], "nat * (bool * doc)")
+    names, decls = [], []
+    if obs and obs[0].klass == 0 and obs[0].tables is not None:
+        names = [cN(did(n)) for n in obs[0].tables[0]]
+        decls = ["(%s, %s)" % (copt(None if ns is None else cN(nsid(str(ns)) + 1), "N"), cN(did(d)))
+                 for ns, d in obs[0].tables[1]]
     locs = []
     for u, pd in pdocs.items():
         for l in (pd.imports if pd.kind == "W" else []):
@@ -1469,17 +1510,18 @@ def c_case(L, pdocs, policy, obs, single_fp):
     table = [None] * len(urls.ids)
     for u, k in urls.ids.items():
         table[k] = u
-    return "(mkCase %s %s %s %s %s %s %s)" % (
+    return "(mkCase %s %s %s %s %s %s %s %s %s)" % (
         clist([cstr(u) for u in table], "str"), docs, cN(policy), cnat(urls(L.root)), cN(single_fp),
-        clist(joins, "nat * str * str"), clist(cobs, "obs"))
+        clist(joins, "nat * str * str"), clist(names, "N"), clist(decls, "qn"), clist(cobs, "obs"))
 
 
 # ---------------------------------------------------------------------------
 # the check
 # ---------------------------------------------------------------------------
 
-PREDS = ["c12_agrees", "c12_join_agrees", "c12_terminates_ok", "c12_sbt_ok", "c12_reach_ok",
+PREDS = ["c12_agrees", "c12_join_agrees", "c12_terminates_ok", "c12_decls_agree", "c12_sbt_ok", "c12_reach_ok",
          "c12_same_client_ok", "c12_atomic_ok", "c12_retry_ok"]
+N_MODEL_PREDS = 4
 
 GENERIC = {
     "c12_sbt_ok": ("C12:transport-before-store", "the transport was asked for a document before (or although) "
@@ -1507,7 +1549,7 @@ def layouts_for(ck):
             rng.shuffle(specs)
             specs = specs[:110]
         for kinds, edges in specs:
-            order = "safe" if rng.random() < 0.8 else "target"
+            order = rng.choice(["safe", "safe", "target", "target", "shuffle"])
             out.append(build_graph_layout(rng, kinds, edges, order=order))
     # partitions of generated interfaces
     want = 500 if thorough else 130
@@ -1646,9 +1688,9 @@ def run(ck):
     finally:
         shutil.rmtree(tmp, ignore_errors=True)
     res = ck.run_cases("corr", PRE, "case", cases, PREDS, shard=60)
-    model_bad = sorted(set(res["c12_agrees"]) | set(res["c12_join_agrees"]) | set(res["c12_terminates_ok"]))
+    model_bad = sorted(set(i for p in PREDS[:N_MODEL_PREDS] for i in res[p]))
     spec_bad = {}
-    for p in PREDS[3:]:
+    for p in PREDS[N_MODEL_PREDS:]:
         for i in res[p]:
             spec_bad.setdefault(i, []).append(p)
     for i, preds in sorted(spec_bad.items()):
@@ -1663,7 +1705,7 @@ def run(ck):
         if i in spec_bad:
             continue
         L, policy, obs = meta[i]
-        which = [p for p in PREDS[:3] if i in res[p]]
+        which = [p for p in PREDS[:N_MODEL_PREDS] if i in res[p]]
         ck.unproved("the loader model and suds disagree (%s) on %s, policy %d" % (", ".join(which), L.desc, policy),
                     dict(L.payload(), policy=policy, predicate=which,
                          steps=[(o.fresh, o.fault) for o in obs],
